@@ -79,9 +79,37 @@ package statebackend
 // the chain height goes back by one (or is removed with the genesis block).
 //@ extern func github.com/NethermindEth/juno/core.GetBlockHeaderHashByNumber
 //@   ensures result1 == nil ==> result0 != nil
+// Reverting the CASM-hash bookkeeping of a block: the record of EVERY Sierra class the block declared
+// is deleted and the record of EVERY class the block migrated is rewritten (un-migrated), through the
+// revert's own batch - whatever the block's protocol version: the store side writes a record for
+// every declared Sierra class of every version.
+//@ opaque type github.com/NethermindEth/juno/core/felt.SierraClassHash like github.com/NethermindEth/juno/core/felt.Felt
+//@ ghost var casmDropped set[felt.SierraClassHash]
+//@ ghost var casmRestored set[felt.SierraClassHash]
+//@ extern func github.com/NethermindEth/juno/core.DeleteClassCasmHashMetadata
+//@   logged as DeleteCasm
+//@   sets casmDropped = setadd(casmDropped, *classHash)
+//@ extern func github.com/NethermindEth/juno/core.GetClassCasmHashMetadata
+//@ extern func github.com/NethermindEth/juno/core.(*ClassCasmHashMetadata).Unmigrate
+//@ extern func github.com/NethermindEth/juno/core.WriteClassCasmHashMetadata
+//@   logged as WriteCasm
+//@   sets casmRestored = setadd(casmRestored, *classHash)
+//@ extern func github.com/NethermindEth/juno/core/felt.(*SierraClassHash).String
 //@ func revertCasmHashMetadata
-//@   trusted
+//@   props C04
 //@   logged
+//@   arith int
+//@   nosafe
+//@   requires stateUpdate != nil && stateUpdate.StateDiff != nil
+//@   modifies *
+//@   assigns casmDropped, casmRestored, calls_DeleteCasm, arg_DeleteCasm_w, arg_DeleteCasm_classHash, calls_WriteCasm, arg_WriteCasm_w, arg_WriteCasm_classHash, arg_WriteCasm_metadata
+//@   callsite DeleteClassCasmHashMetadata@*: through_the_batch: $0 == w
+//@   callsite WriteClassCasmHashMetadata@*: through_the_batch: $0 == w
+//@   loop 1: invariant declared_so_far: forall c felt.Felt :: visited(c) ==> setin(casmDropped, c)
+//@   loop 2: invariant migrated_so_far: forall c felt.SierraClassHash :: visited(c) ==> setin(casmRestored, c)
+//@   loop 2: invariant declared_kept: forall c felt.Felt :: atentry(setin(casmDropped, c)) ==> setin(casmDropped, c)
+//@   ensures every_declared_class_dropped: result == nil ==> (forall c felt.Felt :: old(in(stateUpdate.StateDiff.DeclaredV1Classes, c)) ==> setin(casmDropped, c))
+//@   ensures every_migrated_class_restored: result == nil ==> (forall c felt.SierraClassHash :: old(in(stateUpdate.StateDiff.MigratedClasses, c)) ==> setin(casmRestored, c))
 //@ extern func github.com/NethermindEth/juno/db.Batch.Delete
 //@   logged as BatchDelete
 //@ extern func github.com/NethermindEth/juno/db.BlockHeaderByNumberKey
